@@ -5,6 +5,10 @@ VERIF = os.path.dirname(os.path.dirname(os.path.abspath(__file__)))
 ALL = ["C%02d" % i for i in range(1, 21)]
 
 CLAIMED = {
+ "C13": dict(
+    text="Generated dies and netlists with centres (soft, fixed, terminal; coincident centres, centres on the border and in corners; weighted hyperedges; generated spring constants and iteration counts) through fruchterman_reingold_layout: fixed modules unmoved, centres finite and inside the die, nothing but centres changed, bit-identical result on a deep copy; and through force_algorithm: the returned layout must be one of the twelve candidate layouts and minimal under an independently computed cost (mpmath lens areas over ordered pairs + half the wire length).",
+    note="Trusted: mpmath; candidate layouts come from the real layout function (deterministic), only the cost is independent. Best-of tolerance n(n-1) x 1e-5 Rmax^2 (accuracy C17 grants the tool's own disc formula).",
+    technique="property-based testing (Hypothesis) with invariants, a determinism (metamorphic) check and a reference cost model", ref="4/C13"),
  "C08": dict(
     text="Model-set equality for the shape formula: for generated full grids (uniform or not, origin 0 or not, integer or fractional extent, permuted block order) and k = 1..3, ALL models of the CNF built as solve() builds it are enumerated (PySAT + blocking clauses), projected on the per-box cell variables, and compared as a set with an independent enumeration of k-tuples (trunk, branches) - spurious and missing shapes both count; bounded-exhaustive over every grid shape up to 3x3 (4x4 thorough) on five coordinate systems; and rect.solve() itself is run in minimum-error mode for bounds from below the minimum to above the maximum attainable cost and its verdict, rectangles and reported cost are checked against the enumeration.",
     note="Trusted: PySAT, the 25-line shape enumerator. Grids are complete; coordinates multiples of 0.5, occupancies multiples of 1/4 (exact integer costs). GreedyManager (DLL) stubbed - not used by the checked functions.",
